@@ -1,0 +1,23 @@
+// Copyright 2021 TiKV Project Authors.
+//
+// Licensed under the Apache License, Version 2.0 (the "License");
+// you may not use this file except in compliance with the License.
+// You may obtain a copy of the License at
+//
+//     http://www.apache.org/licenses/LICENSE-2.0
+//
+// Unless required by applicable law or agreed to in writing, software
+// distributed under the License is distributed on an "AS IS" BASIS,
+// See the License for the specific language governing permissions and
+// limitations under the License.
+
+//go:build verif
+// +build verif
+
+// Assumed contracts for the leveldb-backed kv (checked by /verif/govc at call sites only; comment-only file).
+package kv
+
+// Writing a batch to leveldb has no Go-visible effect on its arguments (assumed; leveldb is outside the verified code).
+//@ func (*LeveldbKV).SaveRegions
+//@   assumed
+//@   modifies nothing
